@@ -201,7 +201,7 @@ def machine_jobs(m, kinds=(0, 1, 2), upd_kinds_quick=(0, 2, 6), upd_kinds=(0, 1,
     for d1 in range(1, m.n):
         for d2 in range(1, m.n):
             job(id='C.%s.q2.d%d.d%d' % (m.name, d1, d2), entry='step_queued2', key=[0, d1, 0, d2], props=['C01', 'C02', 'C04'], quick_for=['C02'], tier=q2_tier, carriers=[r'R_<.*>::changeTo'],
-                tags=['batch-override'] if batch_override_key(m, d1, d2) else [],
+                tags=(['batch-override'] if batch_override_key(m, d1, d2) else []) + [t for t in (ortho_direct(m, d1) + ortho_direct(m, d2)) if t == 'ortho-root-direct'][:1],
                 case_key='%s/queued pair/change %d then change %d' % (m.name, d1, d2), **base)
 def ancestors(m, s):
     out = []
@@ -228,7 +228,7 @@ def compatible(m, d1, d2):
         a = m.parents[a]
     return True
 def extra_jobs(m, tier='quick', q3=True):
-    base = dict(tu=m.tu, defs=m.defs, unwind=m.unwind, objbits=12, timeout=900)
+    base = dict(tu=m.tu, defs=m.defs, unwind=m.unwind, objbits=12, timeout=900, mem_gb=24)
     ncfg = m.count(0)
     for c in range(ncfg):
         act = m.active_set(c)
@@ -326,7 +326,7 @@ for tcap, payload, tier in ((1, False, 'quick'), (2, False, 'quick'), (3, False,
 # ------------------------------------------------------------------ C12: utility / random machine
 M_UTIL = Machine('util', 'tier_c/m_util.cpp', [-1, 0, 0, 2, 2, 2, 0, 6, 6, 6], ['C', 'L', 'C', 'L', 'L', 'L', 'C', 'L', 'L', 'L'], unwind=22)
 for e, k, region in (('step_utilize', 4, 2), ('step_utilize', 0, 2), ('step_randomize', 5, 6), ('step_randomize', 0, 6)):
-    job(id='C.util.%s.%s' % (e[5:], KIND_NAMES[k]), tu=M_UTIL.tu, entry=e, key=[k, region], props=['C12', 'C01', 'C02', 'C11'], unwind=22, objbits=12, timeout=900,
+    job(id='C.util.%s.%s' % (e[5:], KIND_NAMES[k]), tu=M_UTIL.tu, entry=e, key=[k, region], props=['C12', 'C01', 'C11'], unwind=22, objbits=12, timeout=900,
         carriers=[r'C_<.*>::deepRequestUtilize', r'C_<.*>::deepRequestRandomize', r'C_<.*>::resolveRandom', r'CS_<.*>::wideReportUtilize', r'CS_<.*>::wideReportRank', r'CS_<.*>::wideReportRandomize', r'C_<.*>::deepRequestChangeUtilitarian', r'C_<.*>::deepRequestChangeRandom'],
         case_key='util/%s/%s region %d' % (e[5:], KIND_NAMES[k], region))
 
